@@ -380,8 +380,9 @@ def roundtrip_oracle(data: bytes, iv_size, src_kind: str, out: Outcome, infos=No
     return passes
 
 
-def size0_oracle(data: bytes, iv_size, src_kind: str, out: Outcome) -> int:
-    """data ends in a box whose size field is 0 ("extends to the end of the file", 14496-12 4.2)."""
+def size0_oracle(data: bytes, iv_size, src_kind: str, out: Outcome, plain_sigs: set = frozenset()) -> int:
+    """data ends in a box whose size field is 0 ("extends to the end of the file", 14496-12 4.2).  As for the
+    64-bit form, what the tree with ordinary headers already shows is not blamed on the header a second time."""
     n = 0
     for mode, lazy in MODES:
         tag = f"{mode}-{'lazy' if lazy else 'eager'}"
@@ -392,10 +393,13 @@ def size0_oracle(data: bytes, iv_size, src_kind: str, out: Outcome) -> int:
             out.fail("header/size0/parse-does-not-terminate", f"{tag}: {exc}; input ends {data[-24:].hex()}")
             break
         except Exception as exc:
+            box, _where = _exc_box(exc)
+            if any(p.startswith(f"{box}/raises/{_exc_name(exc)}/") for p in plain_sigs):
+                continue
             # which exception it is depends on the bytes that get misread as a header: one name for all
             out.fail("header/size0/parse-raises", f"{tag}: {exc!r} at {_exc_box(exc)[1]}; input ends {data[-24:].hex()}")
             continue
-        if produced != data:
+        if produced != data and not plain_sigs:
             k = next((i for i in range(min(len(produced), len(data))) if produced[i] != data[i]), min(len(produced), len(data)))
             out.fail("header/size0/re-encoded-differently",
                      f"{tag}: {len(data)} bytes in, {len(produced)} out, first difference at {k}: "
@@ -617,7 +621,7 @@ def check_generated(case) -> Outcome:
         n += largesize_oracle(d64, iv, src, out, plain_sigs)
     if case["boxes"][-1].get("hdr") == "0":
         d0, _ = isowrite.build_file(_with_forms(case["boxes"], {"0"}))
-        n += size0_oracle(d0, iv, src, out)
+        n += size0_oracle(d0, iv, src, out, plain_sigs)
     labels = set()
     new = False
     known = fixture_cvf()
@@ -941,6 +945,21 @@ def check_edits(case) -> Outcome:
         done += 1
         out.cls("op:" + op)
         target = expect.get("target", op)
+        # the callers' protocol (media_requests.generate_media_segment, tests/test_mp4.py): a fragment whose tfhd
+        # carries an absolute base_data_offset gets it reset to None before it is encoded after a modification,
+        # because the library cannot know how far the fragment moved.  An edit that leaves a stale absolute base
+        # behind is not a supported edit (first version of this engine reported saio/trun encode errors for it).
+        if not (step.get("field") == "base_data_offset" and op == "set"):
+            for top in wrap.children:
+                if top.atom_type != "moof":
+                    continue
+                for traf in top.children:
+                    if traf.atom_type != "traf":
+                        continue
+                    tfhd = traf.find_child("tfhd")
+                    if tfhd is not None and tfhd.flags & 1 and tfhd.base_data_offset is not None:
+                        tfhd.base_data_offset = None
+                        out.cls("base-reset-by-protocol")
         try:
             cur = wrap.encode()
         except Exception as exc:
